@@ -92,7 +92,7 @@ fn unesc(s: &str) -> Vec<u8> {
     let mut o = Vec::new();
     let mut i = 0;
     while i < b.len() {
-        if b[i] == b'%' && i + 2 < b.len() + 0 && i + 2 <= b.len() - 1 {
+        if b[i] == b'%' && i + 2 < b.len() && s.is_char_boundary(i + 1) && s.is_char_boundary(i + 3) {
             if let Ok(v) = u8::from_str_radix(&s[i + 1..i + 3], 16) {
                 o.push(v);
                 i += 3;
@@ -116,7 +116,7 @@ const K_C04_1: KnownMark = KnownMark { id: "F-C04-1", msg: "byte_at(self.path_st
 const K_C04_3: KnownMark = KnownMark { id: "F-C04-3", msg: "", loc: "" };
 const K_C04_7: KnownMark = KnownMark { id: "F-C04-7", msg: "segment_start - 1", loc: "parser.rs" };
 const K_C14_1: KnownMark = KnownMark { id: "F-C14-1", msg: "index out of bounds", loc: "ascii_set.rs" };
-const K_C02_28: KnownMark = KnownMark { id: "F-C02-2+F-C02-8", msg: "", loc: "" };
+const K_C04_12: KnownMark = KnownMark { id: "F-C04-12", msg: "", loc: "" };
 const K_C11_2: KnownMark = KnownMark { id: "F-C11-2", msg: "!had_errors", loc: "uts46.rs" };
 
 struct Sink {
@@ -232,7 +232,7 @@ fn corrupt_empty_host(u: &Url) -> bool {
     let se = c.scheme_end as usize;
     se <= s.len() && s[se..].starts_with(b"://") && c.host_start == c.host_end && (c.port.is_some() || c.host_start > c.scheme_end + 3)
 }
-/// F-C02-2 / F-C02-8 (open C02 findings): the record has no authority but its path starts with "//", so the
+/// F-C04-12 (a consequence of the open F-C02-2 / F-C02-8): the record has no authority but its path starts with "//", so the
 /// serialization reads `scheme://...`; Position::BeforeUsername is then computed from the text (scheme_end + 3)
 /// and lies after AfterUsername (= username_end = scheme_end + 1): slicing in component order panics
 fn authority_lookalike(u: &Url) -> bool {
@@ -404,7 +404,7 @@ fn url_all(u: &Url, k: &mut Sink, strict: bool) {
     }
     let saved_known = k.known;
     if authority_lookalike(u) {
-        k.known = Some(K_C02_28);
+        k.known = Some(K_C04_12);
     }
     slicing(u, k);
     k.known = saved_known;
@@ -1128,8 +1128,8 @@ fn build_rows_other() -> Vec<Row> {
         k.s("out", &out);
         let _ = idna::Idna::default();
     });
-    // `out` is pre-filled with ASCII only (with verify_dns_length the deprecated API hands `out` to
-    // uts46::verify_dns_length, whose debug assertion on non-ASCII is a documented panic)
+    // `out` is pre-filled with ASCII only (F-C04-13: with verify_dns_length the deprecated API hands `out` to
+    // uts46::verify_dns_length, whose debug assertion fails on a non-ASCII `out`)
     row!("idna", "Idna::to_ascii", Str, Cap::Idna, |c, k| {
         for (bits, pre) in [(c.small, ""), (c.small >> 4, "x.")] {
             let mut out = String::from(pre);
@@ -2239,7 +2239,7 @@ fn stream_blob(col: &mut Col) {
         col.record("deep-blob", &format!("blobdepth n={}", n), "ok", &imp, true, &format!("blob:{}", if imp == "ok" { "ok" } else { "abort" }));
     }
     col.rep.notes.push(
-        "K-blob-depth (open, reported): Url::origin / quirks::origin recurse once per nested `blob:` and re-parse the remainder at every level: the process aborts with a stack overflow between n = 32000 and 36000 (release, 8 MiB stack; dev: between 30000 and 40000) and the time is quadratic (release 3.2 s at n = 10000, 39.5 s at n = 32000); the child process is therefore run only up to the sizes above"
+        "F-C04-11 (K-blob-depth, open): Url::origin / quirks::origin recurse once per nested `blob:` and re-parse the remainder at every level: the process aborts with a stack overflow between n = 32000 and 36000 (release, 8 MiB stack; dev: between 30000 and 40000) and the time is quadratic (release 3.2 s at n = 10000, 39.5 s at n = 32000); the child process is therefore run only up to the sizes above"
             .into(),
     );
 }
@@ -2476,6 +2476,10 @@ fn run_corr(args: &Args) -> Report {
     let mut col = Col { rep: Report::new(), search: false, thorough: args.tier == "thorough" };
     check_inventory(&mut col);
     run_streams(&mut col, args.seed);
+    col.rep.notes.push(
+        "outside the streams: F-C13-2 (needs 4 GiB; see C13, known mode thorough tier); leaked PathSegmentsMut / Serializer guards (mem::forget) are outside the quantifier; Url::socket_addrs is called only when it cannot reach the resolver (no host, IP-literal host, or no port and a closure returning None); Url::deserialize_internal is fed only the output of serialize_internal; Serializer::for_suffix start positions are clamped to character boundaries (F-C15-1) and to the length (documented panic); Idna::to_ascii is given an ASCII-only `out` (F-C04-13: a non-ASCII `out` with verify_dns_length fails the debug assertion of uts46::verify_dns_length)"
+            .into(),
+    );
     if col.thorough && !DBG {
         // thorough tier, release build: the correspondence of COST (DESIGN.md section 8, C04): the cost
         // theorems / the list of timing findings predict "linear" for every experiment that is not a
@@ -2655,6 +2659,27 @@ fn run_known(args: &Args) -> Report {
         }
         v.join(", ")
     });
+    // F-C04-11 (K-blob-depth): never re-measured here (quadratic time, aborts the process)
+    rep.known.push((
+        "F-C04-11".into(),
+        true,
+        "Url::origin / quirks::origin of \"blob:\" x n ++ \"http://h/\": unbounded recursion, stack overflow aborts the process (SIGABRT) between n = 32000 and 36000 in the release build and between 30000 and 40000 in the dev profile (8 MiB main-thread stack), quadratic time (release: 3.2 s at n = 10000, 39.5 s at n = 32000); measured once, not re-measured in known mode (request `blobdepth n=36000` re-runs it in a child process)".into(),
+    ));
+    // F-C04-12: Position slicing in component order on a record of F-C02-2 / F-C02-8
+    let (p, o) = probe(&mut || {
+        let mut u = Url::parse("a:/a/b").unwrap();
+        u.set_path("//");
+        let lookalike = authority_lookalike(&u);
+        format!("url = {}, in class = {}, slice = {:?}", u.as_str(), lookalike, &u[Position::BeforeUsername..Position::AfterUsername])
+    });
+    rep.known.push(("F-C04-12".into(), p, format!("a:/a/b set_path(\"//\") then &u[Position::BeforeUsername..Position::AfterUsername]: {}", o)));
+    // F-C04-13: the deprecated Idna::to_ascii hands the caller's `out` to verify_dns_length (debug assertion is_ascii)
+    let (p, o) = probe(&mut || {
+        let mut out = String::from("\u{e9}");
+        let r = idna::Idna::new(idna::Config::default().verify_dns_length(true)).to_ascii("\u{e9}x", &mut out);
+        format!("returns {:?}, out = {:?}{}", r.is_ok(), out, if DBG { "" } else { " (release build: no debug assertions)" })
+    });
+    rep.known.push(("F-C04-13".into(), p, format!("Idna::new(Config::default().verify_dns_length(true)).to_ascii(\"\\u{{e9}}x\", &mut String::from(\"\\u{{e9}}\")): {}", o)));
     // F-C14-1
     let (p, o) = probe(&mut || format!("returns {:?}", AsciiSet::EMPTY.add(std::hint::black_box(0x80))));
     rep.known.push(("F-C14-1".into(), p, format!("AsciiSet::EMPTY.add(0x80): {}", o)));
